@@ -13,7 +13,8 @@ RULE = ("Program ASTs: node definitions, modifications of base nodes, '!constant
         "is not itself a block, as the docs require); per-level indentation width 1-4; nodes before, inside, between "
         "and after blocks; the same name defined in several clauses; blocks with compact names ('ga.@case', contents below "
         "ga) next to plain ones, where a following block of another path is a new block; blank and comment lines "
-        "sprinkled between the lines. Oracle: reference interpreter - selected clause = "
+        "sprinkled between the lines; conditions with == != < >= <=; a node followed by one whose value references it, "
+        "inside clauses (an unselected clause must not even resolve the reference). Oracle: reference interpreter - selected clause = "
         "first true, else @else; an item takes effect iff every enclosing block selects its clause; case indentation "
         "does not enter names. Compared with env.data() (keys in first-effect order, values) and the constant flags. "
         "Programs with a stray @else/@end where no block is open must raise. Non-trivial: an all-false block closed by "
@@ -36,7 +37,7 @@ def cond(draw):
     if k != "expr":
         return {"lit": k == "true"}
     # a small pool on purpose: the same condition text recurs while the referenced node changes in between
-    return {"ref": draw(st.sampled_from(BASE[:2])), "op": draw(st.sampled_from(["==", "==", "!=", "<"])),
+    return {"ref": draw(st.sampled_from(BASE[:2])), "op": draw(st.sampled_from(["==", "==", "!=", "<", ">=", "<="])),
             "rhs": draw(st.integers(0, 2))}
 
 
@@ -48,6 +49,7 @@ def items(depth):
         st.tuples(st.just("mod"), st.sampled_from(BASE), st.integers(0, 2)),
         st.tuples(st.just("mod"), st.sampled_from(BASE[:2]), st.integers(0, 2)),
         st.tuples(st.just("unit")),                       # '$unit uN = 2 cm' directly followed by a node that uses it
+        st.tuples(st.just("refdef")),                     # a node and, on the next line, one whose value references it
     ).map(list)
     if depth == 0:
         return st.lists(leaf, min_size=0, max_size=3)
@@ -115,7 +117,7 @@ def _explicit_end(its, idx):
     return bool(end or (nxt is not None and nxt[0] == "block" and _block(nxt)[4] == pf))
 
 
-def render_items(its, level, widths, out):
+def render_items(its, level, widths, out, prefix=""):
     ind = " " * sum(widths[:level])
     for idx, it in enumerate(its):
         k = it[0]
@@ -128,18 +130,21 @@ def render_items(its, level, widths, out):
         elif k == "unit":
             out.append(f"{ind}$unit u{it[1]} = 2 cm")
             out.append(f"{ind}uv{it[1]} float = 3 [u{it[1]}]")
+        elif k == "refdef":
+            out.append(f"{ind}rw{it[1]} int = 7")
+            out.append(f"{ind}rd{it[1]} int = {{?{prefix}rw{it[1]}}}")
         elif k == "group":
             out.append(f"{ind}{it[1]}")
-            render_items(it[2], level + 1, widths, out)
+            render_items(it[2], level + 1, widths, out, prefix + it[1] + ".")
         else:
             _b, clauses, els, end, pf = _block(it)
             dot = pf + "." if pf else ""
             for c in clauses:
                 out.append(f"{ind}{dot}@case {cond_text(c['cond'])}")
-                render_items(c["items"], level + 1, widths, out)
+                render_items(c["items"], level + 1, widths, out, prefix + dot)
             if els is not None:
                 out.append(f"{ind}{dot}@else")
-                render_items(els, level + 1, widths, out)
+                render_items(els, level + 1, widths, out, prefix + dot)
             if _explicit_end(its, idx):
                 out.append(f"{ind}{dot}@end")
 
@@ -184,14 +189,14 @@ def truth(c, model):
     if "lit" in c:
         return c["lit"]
     a, b = model[c["ref"]], c["rhs"]
-    return {"==": a == b, "!=": a != b, "<": a < b, ">=": a >= b}[c["op"]]
+    return {"==": a == b, "!=": a != b, "<": a < b, ">=": a >= b, "<=": a <= b}[c["op"]]
 
 
 def interpret(case):
     model = {}
     const = {}
     info = {"allfalse_indent_then_node": False, "nested_in_unselected": False, "max_clauses": 0,
-            "compact_names": False, "sibling_blocks_by_indent": False}
+            "compact_names": False, "sibling_blocks_by_indent": False, "reference_in_unselected": False}
     for n, v in zip(BASE, case["base"]):
         model[n] = v
         const[n] = False
@@ -213,6 +218,13 @@ def interpret(case):
                 if active:
                     model[prefix + f"uv{it[1]}"] = 3.0
                     const.setdefault(prefix + f"uv{it[1]}", False)
+            elif k == "refdef":
+                if active:
+                    for nm in (f"rw{it[1]}", f"rd{it[1]}"):
+                        model[prefix + nm] = 7
+                        const.setdefault(prefix + nm, False)
+                else:
+                    info["reference_in_unselected"] = True
             elif k == "group":
                 walk(it[2], prefix + it[1] + ".", active)
             else:
@@ -278,7 +290,7 @@ def _redefinition_of_constant(case):
             elif k == "mod":
                 if active:
                     model[it[1]] = it[2]
-            elif k == "unit":
+            elif k in ("unit", "refdef"):
                 pass
             elif k == "group":
                 walk(it[2], prefix + it[1] + ".", active)
@@ -304,8 +316,8 @@ def _normalise(its, in_group, counter=None):
     counter = counter if counter is not None else itertools.count()
     out = []
     for it in its:
-        if it[0] == "unit":
-            out.append(["unit", next(counter)])
+        if it[0] in ("unit", "refdef"):
+            out.append([it[0], next(counter)])
         elif it[0] == "def" and it[3]:
             out.append(["def", f"k{next(counter)}", it[2], True])
         elif it[0] == "mod" and in_group:
@@ -356,7 +368,8 @@ def _check(case, v):
     v.label("program")
     if case.get("fill") and any(case["fill"]):
         v.label("blank_or_comment_lines")
-    for key in ("allfalse_indent_then_node", "nested_in_unselected", "compact_names", "sibling_blocks_by_indent"):
+    for key in ("allfalse_indent_then_node", "nested_in_unselected", "compact_names", "sibling_blocks_by_indent",
+                "reference_in_unselected"):
         if info[key]:
             v.label(key)
     if info["max_clauses"] >= 3:
